@@ -5,6 +5,7 @@ import Adb.Model.History
 import Adb.Model.RegexCache
 import Adb.Model.Scriptlet
 import Adb.Spec.Pattern
+import Adb.Spec.Options
 /-
   One-line-in / one-line-out driver.  Every answer has the form  `M=<model> S=<spec> D=<0|1>`:
   the output of the model that mirrors the code, the output of the reference semantics, and whether
@@ -72,6 +73,25 @@ def step (line : String) : String :=
             (bits.all (·.2.2))
       | _, _ => ans "R" "R" true
     | _, _ => "bad-op"
+  -- C03: one options-only rule against many requests: omx <line> <req>*
+  | "omx" :: l :: reqs =>
+    match unhex l, reqs.mapM parseRequest, reqs.mapM parseRequestSrc with
+    | some line, some qs, some srcs =>
+      match Parse.parseNetwork line, Parse.parseAbstract line with
+      | .ok r, .ok a =>
+        let bits := (qs.zip srcs).map (fun (q, src) =>
+          let m := r.matches q
+          let oq : Spec.OReq := ⟨q.tyBit, q.isHttp, q.isHttps, q.thirdParty, src⟩
+          -- a scheme-only pattern (`|http://`, `|https://`, `|ws://`, `|http*://`) is a scheme restriction
+          -- (handled by `refOptions.schemeOk`); it leaves no pattern to match
+          let schemeOnly := a.la == some Parse.LAnchor.single && !a.ra &&
+            ["http://", "https://", "ws://", "http*://"].any (fun p => a.pattern == p.toList)
+          let s := Spec.refOptions a oq && (schemeOnly || Spec.refMatch a q.url q.hostname)
+          (m, s))
+        ans (String.ofList (bits.map (fun b => if b.1 then '1' else '0')))
+            (String.ofList (bits.map (fun b => if b.2 then '1' else '0'))) (isAsciiStr line)
+      | _, _ => ans "R" "R" true
+    | _, _, _ => "bad-op"
   -- derived request fields
   | ["req", q] => match parseRequest q with
       | some q =>
